@@ -181,6 +181,8 @@ def post_checks(pid, tier, seed, evidence):
     viol = []
     if not binary:
         info['status'] = 'not run: replay crate unavailable (scratch source tree or build failure)'
+        if os.environ.get('VERIF_REPO', '/repo') == '/repo':
+            print('NOTE property=%s bounded stand-in NOT RUN: the replay crate does not build against this tree' % pid)
     else:
         t0 = time.time()
         cases, rc, err = 0, 0, ''
